@@ -20,14 +20,14 @@ import (
 // ---- C15: Bifurcation accepts a soft-failing head iff a verifiable path exists; terminates ----
 
 type c15P struct {
-	S      uint64 `json:"s"`       // subjective (store) head
-	D      uint64 `json:"d"`       // distance to the candidate
-	R      uint64 `json:"r"`       // trust range
-	Cand   string `json:"cand"`    // canonical | forged-rightlink | forged-wronglink | signed-relink
-	FailAt int    `json:"fail_at"` // index of the getter.GetByHeight call that fails (-1 none)
-	Via    string `json:"via"`     // "" = gossip delivery | "head" = learned through Syncer.Head() from the trusted getter
+	S        uint64 `json:"s"`                   // subjective (store) head
+	D        uint64 `json:"d"`                   // distance to the candidate
+	R        uint64 `json:"r"`                   // trust range
+	Cand     string `json:"cand"`                // canonical | forged-rightlink | forged-wronglink | signed-relink
+	FailAt   int    `json:"fail_at"`             // index of the getter.GetByHeight call that fails (-1 none)
+	Via      string `json:"via"`                 // "" = gossip delivery | "head" = learned through Syncer.Head() from the trusted getter
 	FailKind string `json:"fail_kind,omitempty"` // "" generic error | notfound (header.ErrNotFound once) | notfound-from (ErrNotFound from that call on)
-	Soft   bool   `json:"soft"`    // the header type reports its own rejections as SoftFailure (also adjacent ones)
+	Soft     bool   `json:"soft"`                // the header type reports its own rejections as SoftFailure (also adjacent ones)
 	// Redeliver: after a delivery during which the getter failed (once), the same candidate is delivered again
 	// with the getter healthy: the verdict must then be the one of a first delivery
 	Redeliver bool `json:"redeliver,omitempty"`
